@@ -55,6 +55,13 @@ func (m *FixPeriodPlanner) Process(ctx *shared.PlannerContext,
 
 	go func() {
 		defer close(res)
+		defer func() {
+			go func() {
+				for range _in {
+				}
+			}()
+		}()
+		defer shared.TamePanic(res)
 		for entries := range _in {
 			for _, entry := range entries {
 				if values == nil || entry.Fingerprint != fingerprint {
